@@ -1,7 +1,9 @@
 package core
 
 import (
+	"fmt"
 	"go/token"
+	"strings"
 
 	"golang.org/x/tools/go/ssa"
 )
@@ -20,52 +22,98 @@ type PathQuery struct {
 	EdgeOK func(i *ssa.If, branch bool) bool
 }
 
-type pstate struct {
+// pframe is one activation on the search stack: the next instruction to run is fn-block b, index i.
+type pframe struct {
 	b     *ssa.BasicBlock
-	armed bool
+	i     int
+	armed bool                // a deferred stop is pending in this activation
+	defs  []*ssa.Defer        // deferred calls of absorbed helpers passed so far (run at RunDefers)
+	call  ssa.CallInstruction // the instruction of the caller that created this activation (nil for the root)
+}
+
+type pnode struct {
+	stack []pframe // innermost last
+	binds []retBind
+	prev  *pnode
+	at    ssa.Instruction
+}
+
+// retBind records which Return a finished helper activation came back through: the caller's tests of the call's results are
+// decided with the constants that Return carries.
+type retBind struct {
+	call ssa.CallInstruction
+	ret  *ssa.Return
+}
+
+func (n *pnode) key() string {
+	var sb strings.Builder
+	for _, f := range n.stack {
+		fmt.Fprintf(&sb, "%p:%d:%v:%d|", f.b, f.i, f.armed, len(f.defs))
+		for _, d := range f.defs {
+			fmt.Fprintf(&sb, "%p,", d)
+		}
+	}
+	for _, b := range n.binds {
+		fmt.Fprintf(&sb, "#%p=%p", b.call, b.ret)
+	}
+	return sb.String()
 }
 
 // Find returns a witness path (instructions of interest: the block-entry instructions and the target) or nil.
+// The search runs over the function and the helpers absorbed into it (absorb.go): a call of such a helper continues at the
+// helper's entry and comes back after the call; deferred helpers run at RunDefers.
 func (q *PathQuery) Find() []ssa.Instruction {
 	fn := q.Fn
 	if len(fn.Blocks) == 0 {
 		return nil
 	}
-	armed0 := false
-	if q.DeferStop != nil && q.From != nil {
-		Instrs(fn, func(in ssa.Instruction) {
-			if d, ok := in.(*ssa.Defer); ok && q.DeferStop(d) && (Dominates(d, q.From) || d == q.From) {
-				armed0 = true
-			}
-		})
-	}
-	type node struct {
-		st   pstate
-		prev *node
-		at   ssa.Instruction
-	}
-	seen := map[pstate]bool{}
-	var queue []*node
-	// scan runs the instructions of block b from index i; returns (hitTarget, stopped, armedAfter)
-	scan := func(b *ssa.BasicBlock, i int, armed bool) (ssa.Instruction, bool, bool) {
-		for ; i < len(b.Instrs); i++ {
-			in := b.Instrs[i]
-			if d, ok := in.(*ssa.Defer); ok && q.DeferStop != nil && q.DeferStop(d) {
-				armed = true
-			}
-			if _, ok := in.(*ssa.RunDefers); ok && armed {
-				return nil, true, armed
-			}
-			if q.Stop != nil && q.Stop(in) {
-				return nil, true, armed
-			}
-			if q.Target(in) {
-				return in, false, armed
-			}
+	var starts []*pnode
+	if q.From == nil {
+		starts = []*pnode{{stack: []pframe{{b: fn.Blocks[0]}}}}
+	} else {
+		// From may lie in an absorbed helper: rebuild each calling context
+		chains := CallChains(fn, q.From.Parent())
+		if q.From.Parent() == fn {
+			chains = [][]ssa.CallInstruction{nil}
 		}
-		return nil, false, armed
+		for _, ch := range chains {
+			var st []pframe
+			okc := true
+			for _, c := range ch {
+				ci := c.(ssa.Instruction)
+				if _, isDefer := ci.(*ssa.Defer); isDefer {
+					okc = false // a deferred helper runs at function exit: continue from the end of the caller instead
+					break
+				}
+				st = append(st, pframe{b: ci.Block(), i: IndexIn(ci) + 1, armed: q.armedBefore(ci)})
+			}
+			if !okc {
+				continue
+			}
+			// frames were built as "resume points" of the callers; fix up the call links
+			for k := range st {
+				if k > 0 {
+					st[k].call = ch[k-1]
+				}
+			}
+			fr := pframe{b: q.From.Block(), i: IndexIn(q.From) + 1, armed: q.armedBefore(q.From)}
+			if len(ch) > 0 {
+				fr.call = ch[len(ch)-1]
+			}
+			st = append(st, fr)
+			starts = append(starts, &pnode{stack: st, at: q.From})
+		}
+		if len(starts) == 0 {
+			return nil
+		}
 	}
-	build := func(n *node, last ssa.Instruction) []ssa.Instruction {
+	seen := map[string]bool{}
+	var queue []*pnode
+	for _, n := range starts {
+		seen[n.key()] = true
+		queue = append(queue, n)
+	}
+	build := func(n *pnode, last ssa.Instruction) []ssa.Instruction {
 		var rev []ssa.Instruction
 		rev = append(rev, last)
 		for x := n; x != nil; x = x.prev {
@@ -78,53 +126,225 @@ func (q *PathQuery) Find() []ssa.Instruction {
 		}
 		return rev
 	}
-	expand := func(n *node, b *ssa.BasicBlock, armed bool) {
+	push := func(parent *pnode, st []pframe, binds []retBind, at ssa.Instruction) {
+		n := &pnode{stack: st, binds: binds, prev: parent, at: at}
+		k := n.key()
+		if seen[k] {
+			return
+		}
+		seen[k] = true
+		queue = append(queue, n)
+	}
+	steps := 0
+	for len(queue) > 0 {
+		n := queue[0]
+		queue = queue[1:]
+		steps++
+		if steps > 200000 {
+			return nil
+		}
+		// run the innermost pframe to the end of its block (or until it calls / returns)
+		st := append([]pframe{}, n.stack...)
+		top := &st[len(st)-1]
+		b := top.b
+		stopped := false
+		moved := false
+		for ; top.i < len(b.Instrs); top.i++ {
+			in := b.Instrs[top.i]
+			if d, ok := in.(*ssa.Defer); ok {
+				if q.DeferStop != nil && q.DeferStop(d) {
+					top.armed = true
+				}
+				if AbsorbedCallee(d) != nil && len(st) <= absorbDepth {
+					top.defs = append(append([]*ssa.Defer{}, top.defs...), d)
+				}
+			}
+			if _, ok := in.(*ssa.RunDefers); ok {
+				if top.armed {
+					stopped = true
+					break
+				}
+				if len(top.defs) > 0 {
+					// run the deferred helpers (last first), then resume after RunDefers
+					defs := top.defs
+					top.defs = nil
+					top.i++
+					ns := append([]pframe{}, st...)
+					for _, d := range defs { // pushed first = runs last
+						h := AbsorbedCallee(d)
+						ns = append(ns, pframe{b: h.Blocks[0], call: d})
+					}
+					push(n, ns, n.binds, nil)
+					moved = true
+					break
+				}
+			}
+			_, isRet := in.(*ssa.Return)
+			inner := isRet && len(st) > 1 // a helper's own return is not a return of the function under analysis
+			if !inner && q.Stop != nil && q.Stop(in) {
+				stopped = true
+				break
+			}
+			if !inner && q.Target(in) {
+				return build(n, in)
+			}
+			if c, ok := in.(*ssa.Call); ok && len(st) <= absorbDepth {
+				if h := AbsorbedCallee(c); h != nil && !onStack(st, h) {
+					top.i++
+					ns := append(append([]pframe{}, st...), pframe{b: h.Blocks[0], call: c})
+					push(n, ns, n.binds, h.Blocks[0].Instrs[0])
+					moved = true
+					break
+				}
+			}
+			if r, ok := in.(*ssa.Return); ok && len(st) > 1 {
+				// back to the caller
+				ns := append([]pframe{}, st[:len(st)-1]...)
+				binds := n.binds
+				if top.call != nil {
+					binds = append(append([]retBind{}, dropBind(binds, top.call)...), retBind{top.call, r})
+				}
+				push(n, ns, binds, nil)
+				moved = true
+				break
+			}
+		}
+		if stopped || moved {
+			continue
+		}
+		// end of block: follow the successors
 		last := b.Instrs[len(b.Instrs)-1]
 		ifi, isIf := last.(*ssa.If)
 		for k, s := range b.Succs {
-			if isIf && q.EdgeOK != nil && !q.EdgeOK(ifi, k == 0) {
-				continue
+			if isIf {
+				if q.EdgeOK != nil && !q.EdgeOK(ifi, k == 0) {
+					continue
+				}
+				if v, known := condUnder(ifi.Cond, n.binds); known && v != (k == 0) {
+					continue // the helper's return decides this test
+				}
 			}
-			st := pstate{s, armed}
-			if seen[st] {
-				continue
-			}
-			seen[st] = true
+			ns := append([]pframe{}, st...)
+			ns[len(ns)-1].b = s
+			ns[len(ns)-1].i = 0
 			var at ssa.Instruction
 			if len(s.Instrs) > 0 {
 				at = s.Instrs[0]
 			}
-			queue = append(queue, &node{st: st, prev: n, at: at})
+			push(n, ns, n.binds, at)
 		}
-	}
-	// first partial block
-	var startBlock *ssa.BasicBlock
-	startIdx := 0
-	if q.From != nil {
-		startBlock = q.From.Block()
-		startIdx = IndexIn(q.From) + 1
-	} else {
-		startBlock = fn.Blocks[0]
-	}
-	root := &node{st: pstate{startBlock, armed0}, at: q.From}
-	if hit, stopped, armed := scan(startBlock, startIdx, armed0); hit != nil {
-		return build(root, hit)
-	} else if !stopped {
-		expand(root, startBlock, armed)
-	}
-	for len(queue) > 0 {
-		n := queue[0]
-		queue = queue[1:]
-		hit, stopped, armed := scan(n.st.b, 0, n.st.armed)
-		if hit != nil {
-			return build(n, hit)
-		}
-		if stopped {
-			continue
-		}
-		expand(n, n.st.b, armed)
 	}
 	return nil
+}
+
+func onStack(st []pframe, h *ssa.Function) bool {
+	for _, f := range st {
+		if f.b.Parent() == h {
+			return true
+		}
+	}
+	return false
+}
+
+func dropBind(bs []retBind, c ssa.CallInstruction) []retBind {
+	var out []retBind
+	for _, b := range bs {
+		if b.call != c {
+			out = append(out, b)
+		}
+	}
+	return out
+}
+
+// armedBefore: a deferred stop armed by a Defer that dominates `at` in its own function.
+func (q *PathQuery) armedBefore(at ssa.Instruction) bool {
+	if q.DeferStop == nil || at == nil {
+		return false
+	}
+	armed := false
+	InstrsOwn(at.Parent(), func(in ssa.Instruction) {
+		if d, ok := in.(*ssa.Defer); ok && q.DeferStop(d) && (d == at || (d.Block() == at.Block() && IndexIn(d) < IndexIn(at)) || (d.Block() != at.Block() && d.Block().Dominates(at.Block()))) {
+			armed = true
+		}
+	})
+	return armed
+}
+
+// condUnder evaluates a branch condition that tests a result of an absorbed helper call, given the Return each such call
+// came back through. known=false when the condition does not depend on a bound call or the returned value is not a constant.
+func condUnder(cond ssa.Value, binds []retBind) (val bool, known bool) {
+	if len(binds) == 0 {
+		return false, false
+	}
+	c, neg := StripNot(cond)
+	resOf := func(v ssa.Value) (ssa.Value, *ssa.Return, bool) {
+		v = Unwrap(v)
+		switch x := v.(type) {
+		case *ssa.Extract:
+			if call, ok := x.Tuple.(*ssa.Call); ok {
+				for _, b := range binds {
+					if b.call == ssa.CallInstruction(call) && x.Index < len(b.ret.Results) {
+						return RetVal(b.ret, x.Index), b.ret, true
+					}
+				}
+			}
+		case *ssa.Call:
+			for _, b := range binds {
+				if b.call == ssa.CallInstruction(x) && len(b.ret.Results) == 1 {
+					return RetVal(b.ret, 0), b.ret, true
+				}
+			}
+		}
+		return nil, nil, false
+	}
+	if rv, _, ok := resOf(c); ok {
+		if b, isC := ConstBool(rv); isC {
+			return b != neg, true
+		}
+		return false, false
+	}
+	if bin, ok := c.(*ssa.BinOp); ok && (bin.Op == token.EQL || bin.Op == token.NEQ) {
+		var other ssa.Value
+		rv, ret, ok := resOf(bin.X)
+		other = bin.Y
+		if !ok {
+			rv, ret, ok = resOf(bin.Y)
+			other = bin.X
+		}
+		if !ok {
+			return false, false
+		}
+		if IsNilConst(other) {
+			isNil, decided := false, false
+			if IsNilConst(rv) {
+				isNil, decided = true, true
+			} else if IsErrorType(rv.Type()) && nonNilErr(rv, ret, map[ssa.Value]bool{}) {
+				isNil, decided = false, true
+			} else if _, isAlloc := Unwrap(rv).(*ssa.Alloc); isAlloc {
+				isNil, decided = false, true
+			} else if _, isMk := Unwrap(rv).(*ssa.MakeClosure); isMk {
+				isNil, decided = false, true
+			}
+			if !decided {
+				return false, false
+			}
+			r := isNil
+			if bin.Op == token.NEQ {
+				r = !r
+			}
+			return r != neg, true
+		}
+		if k1, ok1 := ConstInt(rv); ok1 {
+			if k2, ok2 := ConstInt(other); ok2 {
+				r := k1 == k2
+				if bin.Op == token.NEQ {
+					r = !r
+				}
+				return r != neg, true
+			}
+		}
+	}
+	return false, false
 }
 
 // IsReturn is a Target predicate for normal returns.
@@ -162,7 +382,41 @@ func DeferPred(names ...string) func(*ssa.Defer) bool {
 
 // OnlyViaEdge reports whether every path from the function entry to instruction x
 // passes through the edge (i.Block → successor[branch]) where branch=true is the "then" edge.
+// The If and x may lie in different functions of one region (a function and the helpers absorbed into it).
 func OnlyViaEdge(i *ssa.If, branch bool, x ssa.Instruction) bool {
+	fi, fx := i.Parent(), x.Parent()
+	if i.Block().Succs[0] == i.Block().Succs[1] {
+		return false
+	}
+	if fi == fx && len(AbsorbedInto(fi)) == 0 {
+		return onlyViaEdgeLocal(i, branch, x)
+	}
+	if fi == fx && onlyViaEdgeLocal(i, branch, x) {
+		return true
+	}
+	root := OuterOf(fi, fx)
+	if root == nil {
+		return false
+	}
+	// is x reachable from the root's entry when the edge is removed?
+	q := &PathQuery{Fn: root, Target: func(in ssa.Instruction) bool { return in == x },
+		EdgeOK: func(j *ssa.If, br bool) bool { return !(j == i && br == branch) }}
+	if fx != root {
+		// x inside a helper: a helper's own Return is never offered to Target, but any other instruction is
+		if _, isRet := x.(*ssa.Return); isRet {
+			return false
+		}
+	}
+	return q.Find() == nil && reachableInRegion(root, x)
+}
+
+// reachableInRegion: x is reachable at all (guards against vacuous truth for dead code).
+func reachableInRegion(root *ssa.Function, x ssa.Instruction) bool {
+	q := &PathQuery{Fn: root, Target: func(in ssa.Instruction) bool { return in == x }}
+	return q.Find() != nil
+}
+
+func onlyViaEdgeLocal(i *ssa.If, branch bool, x ssa.Instruction) bool {
 	fn := i.Parent()
 	if x.Parent() != fn {
 		return false
@@ -211,7 +465,19 @@ type CondMatch struct {
 // Negations (!c) are normalised away before pred sees the condition.
 func GuardedBy(x ssa.Instruction, pred func(cond ssa.Value) CondMatch) (*ssa.If, bool) {
 	var found *ssa.If
-	Instrs(x.Parent(), func(in ssa.Instruction) {
+	var cands []ssa.Instruction
+	for _, r := range RootsOf(x.Parent()) {
+		Instrs(r, func(in ssa.Instruction) { cands = append(cands, in) })
+	}
+	if len(cands) == 0 {
+		Instrs(x.Parent(), func(in ssa.Instruction) { cands = append(cands, in) })
+	}
+	each := func(f func(ssa.Instruction)) {
+		for _, in := range cands {
+			f(in)
+		}
+	}
+	each(func(in ssa.Instruction) {
 		if found != nil {
 			return
 		}
